@@ -33,9 +33,23 @@ type fgKey struct{}
 // fgCall is attached to the context of a foreground Exec; the terminal plugin
 // finds it there. A background refresh runs on context.Background() and has none.
 type fgCall struct {
-	reached int      // times the terminal ran on the caller's goroutine
-	sawResp bool     // a response was already set when it ran (= served from cache)
-	answer  *dns.Msg // what the "upstream" answers on a miss (nil = nothing)
+	reached int           // times the terminal ran on the caller's goroutine
+	sawResp bool          // a response was already set when it ran (= served from cache)
+	answer  *dns.Msg      // what the "upstream" answers on a miss (nil = nothing)
+	upDelay time.Duration // the "upstream" takes this long before it answers a miss (time between lookup and store)
+	enterT  int64         // instant the terminal was first entered (the cache lookup lies before it)
+	ansT    int64         // instant the upstream's answer was handed over (the store lies after it)
+}
+
+type heldKey struct{}
+
+// heldCall is attached to the context of a query that is held up in front of the
+// cache: the front plugin of the held chain runs hold() (sleeps, lets other
+// queries store ...) and notes the instant it lets the query go on to the cache.
+type heldCall struct {
+	created int64 // instant right after the query context was created
+	hold    func(created int64)
+	goT     int64 // instant the front plugin returned (the cache lookup lies after it)
 }
 
 type bgStep struct {
@@ -74,8 +88,9 @@ type env struct {
 	api     http.Handler
 	lazyTTL int
 	walker  sequence.ChainWalker
-	bg      sync.Map // qname -> *bgState
-	bgUnreg sync.Map // qname -> *atomic.Int64 (refreshes of questions without a script: answered with nothing)
+	held    sequence.ChainWalker // front (slow plugin) -> cache -> terminal, walked from the top
+	bg      sync.Map             // qname -> *bgState
+	bgUnreg sync.Map             // qname -> *atomic.Int64 (refreshes of questions without a script: answered with nothing)
 }
 
 func newEnv(lazyTTL int) *env {
@@ -83,17 +98,37 @@ func newEnv(lazyTTL int) *env {
 	e.c = cacheplugin.NewCache(&cacheplugin.Args{Size: 1 << 20, LazyCacheTTL: lazyTTL}, cacheplugin.Opts{})
 	e.api = e.c.Api()
 	e.walker = sequence.NewChainWalker([]*sequence.ChainNode{{E: sequence.ExecutableFunc(e.terminal)}}, nil)
+	e.held = sequence.NewChainWalker([]*sequence.ChainNode{
+		{E: sequence.ExecutableFunc(e.front)}, {RE: e.c}, {E: sequence.ExecutableFunc(e.terminal)}}, nil)
 	return e
 }
 
 func (e *env) close() { _ = e.c.Close() }
 
+// front is the slow plugin in front of the cache (a sleep / forward / fallback step of a real sequence).
+func (e *env) front(ctx context.Context, qCtx *query_context.Context) error {
+	if hc, _ := ctx.Value(heldKey{}).(*heldCall); hc != nil {
+		if hc.hold != nil {
+			hc.hold(hc.created)
+		}
+		hc.goT = nowNs()
+	}
+	return nil
+}
+
 func (e *env) terminal(ctx context.Context, qCtx *query_context.Context) error {
 	if fc, _ := ctx.Value(fgKey{}).(*fgCall); fc != nil {
+		if fc.reached == 0 {
+			fc.enterT = nowNs()
+		}
 		fc.reached++
 		if qCtx.R() != nil {
 			fc.sawResp = true
 		} else if fc.answer != nil {
+			if fc.upDelay > 0 {
+				time.Sleep(fc.upDelay)
+			}
+			fc.ansT = nowNs()
 			qCtx.SetResponse(fc.answer)
 		}
 		return nil
@@ -174,6 +209,16 @@ type result struct {
 	Hit     bool // the terminal found a response already set
 	HasResp bool
 	Obs     observation
+	AnsT    int64      `json:",omitempty"` // instant the upstream's answer was handed over on a miss (the store follows it)
+	Held    *heldTimes `json:",omitempty"` // set for queries that went through the held chain; then [T0,T1] brackets the LOOKUP, not the call
+}
+
+// heldTimes are the instants of a query that was held up in front of the cache.
+type heldTimes struct {
+	CallT0  int64 `json:"call_begin_ns"`
+	Created int64 `json:"context_created_by_ns"` // query_context.NewContext ran in [call_begin, this]
+	CallT1  int64 `json:"call_end_ns"`
+	AgeMs   int64 `json:"context_age_at_lookup_ms"`
 }
 
 var idCounter atomic.Uint32
@@ -193,6 +238,47 @@ func (e *env) exec(q question, answer *dns.Msg) result {
 	}
 	r.Reached = fc.reached
 	r.Hit = fc.sawResp
+	r.AnsT = fc.ansT
+	if resp := qc.R(); resp != nil {
+		r.HasResp = true
+		r.Obs = observe(resp, qc.UpstreamOpt())
+	}
+	return r
+}
+
+// execHeld sends a query through front -> cache -> terminal. The query context is
+// created by the real constructor first; then the front plugin holds the query
+// (hold runs on the query's goroutine, with the instant the context existed) and
+// only then the cache is reached. T0/T1 of the result bracket the cache LOOKUP:
+// [front plugin returned, terminal entered] (the cache always runs the rest of
+// the chain, on a hit as well as on a miss).
+func (e *env) execHeld(q question, answer *dns.Msg, upDelay time.Duration, hold func(created int64)) result {
+	qm := q.msg(uint16(idCounter.Add(1)))
+	fc := &fgCall{answer: answer, upDelay: upDelay}
+	hc := &heldCall{hold: hold}
+	ctx, cancel := context.WithTimeout(context.WithValue(context.WithValue(context.Background(), fgKey{}, fc), heldKey{}, hc), 60*time.Second)
+	defer cancel()
+	var r result
+	ht := &heldTimes{}
+	r.Held = ht
+	ht.CallT0 = nowNs()
+	qc := query_context.NewContext(qm)
+	ht.Created = nowNs()
+	hc.created = ht.Created
+	w := e.held
+	err := w.ExecNext(ctx, qc)
+	ht.CallT1 = nowNs()
+	if err != nil {
+		r.Err = err.Error()
+	}
+	r.T0, r.T1 = hc.goT, fc.enterT
+	if fc.reached == 0 || r.T0 == 0 {
+		r.T0, r.T1 = ht.CallT0, ht.CallT1
+	}
+	ht.AgeMs = (r.T0 - ht.Created) / 1e6
+	r.Reached = fc.reached
+	r.Hit = fc.sawResp
+	r.AnsT = fc.ansT
 	if resp := qc.R(); resp != nil {
 		r.HasResp = true
 		r.Obs = observe(resp, qc.UpstreamOpt())
